@@ -1,3 +1,3 @@
 From Coq Require Import ExtrOcamlBasic.
-From OBB Require Import Model.Dump.
-Extraction "model.ml" w_dump_dump_msg w_dump_append w_dump_seek w_dump_parse_msg w_dump_parse_all w_dump_trunc_sweep.
+From OBB Require Import Model.Dump Model.DumpHist.
+Extraction "model.ml" w_dump_dump_msg w_dump_append w_dump_seek w_dump_parse_msg w_dump_parse_all w_dump_trunc_sweep w_dump_hist.
